@@ -1,6 +1,7 @@
 package main
 
-// A model of container/list for the evaluator (E12): lists a followed function builds and then walks itself.
+// A model of container/list for the evaluator (E12): lists a followed function builds and walks itself, or
+// walks after the checker has filled them.
 
 import (
 	"fmt"
@@ -10,38 +11,66 @@ import (
 	"golang.org/x/tools/go/ssa"
 )
 
-// listModel keeps the elements pushed onto every list created during one walk. A list is an absPtr tagged
-// "list@<frame>:<instruction>", an element "elem@<list tag>#<index>". Elements are read when a condition or
-// result needs them; the model is for functions that fill a list before they walk it.
+// listModel keeps the elements of every list created during one walk. A list is an absPtr tagged
+// "list@<where it was created>", an element "elem@<list tag>#<id>" with an id that stays its own when other
+// elements are removed. Elements are read when a condition or result needs them; the model is for functions
+// that fill or prune a list before, or while, they walk it from one end.
 type listModel struct {
-	ev    *evaluator
-	elems map[string][]interface{}
+	c      *Ctx
+	ev     *evaluator
+	elems  map[string][]int // list tag -> ids in order
+	vals   map[int]interface{}
+	nextID int
 	// onPush, when set, sees every push onto a list (front: PushFront)
 	onPush func(list string, el interface{}, ok bool, front bool)
 }
 
 func newListModel(ev *evaluator) *listModel {
-	return &listModel{ev: ev, elems: map[string][]interface{}{}}
+	return &listModel{ev: ev, elems: map[string][]int{}, vals: map[int]interface{}{}, nextID: 1}
 }
 
-func (lm *listModel) elemOf(fr *evalFrame, v ssa.Value) (string, int, bool) {
-	o, ok := lm.ev.eval(fr, v, 0)
+// fill: a list the checker supplies.
+func (lm *listModel) fill(tag string, values ...interface{}) {
+	lm.elems[tag] = []int{}
+	for _, v := range values {
+		lm.elems[tag] = append(lm.elems[tag], lm.newElem(v))
+	}
+}
+
+func (lm *listModel) newElem(v interface{}) int {
+	id := lm.nextID
+	lm.nextID++
+	lm.vals[id] = v
+	return id
+}
+
+func (lm *listModel) elemOf(fr *evalFrame, v ssa.Value) (list string, pos int, id int, ok bool) {
+	o, okE := lm.ev.eval(fr, v, 0)
 	p, isP := o.(absPtr)
-	if !ok || !isP || p.isNil || !strings.HasPrefix(p.tag, "elem@") {
-		return "", 0, false
+	if !okE || !isP || p.isNil || !strings.HasPrefix(p.tag, "elem@") {
+		return "", 0, 0, false
 	}
 	i := strings.LastIndex(p.tag, "#")
-	k, err := strconv.Atoi(p.tag[i+1:])
+	id, err := strconv.Atoi(p.tag[i+1:])
 	if err != nil {
-		return "", 0, false
+		return "", 0, 0, false
 	}
-	return p.tag[len("elem@"):i], k, true
+	list = p.tag[len("elem@"):i]
+	for k, e := range lm.elems[list] {
+		if e == id {
+			return list, k, id, true
+		}
+	}
+	return list, -1, id, true // removed from its list: it has no neighbours any more
 }
 
 func (lm *listModel) listOf(fr *evalFrame, v ssa.Value) (string, bool) {
 	o, ok := lm.ev.eval(fr, v, 0)
 	p, isP := o.(absPtr)
 	if !ok || !isP || p.isNil || !strings.HasPrefix(p.tag, "list@") {
+		return "", false
+	}
+	if _, known := lm.elems[p.tag]; !known {
 		return "", false
 	}
 	return p.tag, true
@@ -51,15 +80,16 @@ func (lm *listModel) at(list string, k int) interface{} {
 	if k < 0 || k >= len(lm.elems[list]) {
 		return absPtr{"nil", true}
 	}
-	return absPtr{fmt.Sprintf("elem@%s#%d", list, k), false}
+	return absPtr{fmt.Sprintf("elem@%s#%d", list, lm.elems[list][k]), false}
 }
 
 // leaf: list.New, Front, Back, Len, Element.Next, Element.Prev and the Value of an element.
 func (lm *listModel) leaf(c *Ctx, fr *evalFrame, v ssa.Value) (interface{}, bool) {
+	lm.c = c
 	if rc, f, ok := getterField(c, v); ok && f == "Element.Value" {
 		if _, isCall := v.(*ssa.Call); !isCall {
-			if l, k, ok := lm.elemOf(fr, rc); ok && k < len(lm.elems[l]) && lm.elems[l][k] != nil {
-				return lm.elems[l][k], true
+			if _, _, id, ok := lm.elemOf(fr, rc); ok && lm.vals[id] != nil {
+				return lm.vals[id], true
 			}
 			return nil, false
 		}
@@ -77,7 +107,7 @@ func (lm *listModel) leaf(c *Ctx, fr *evalFrame, v ssa.Value) (interface{}, bool
 			tag += fmt.Sprintf("<%p", f.call)
 		}
 		if lm.elems[tag] == nil {
-			lm.elems[tag] = []interface{}{}
+			lm.elems[tag] = []int{}
 		}
 		return absPtr{tag, false}, true
 	case "(*container/list.List).Front":
@@ -93,51 +123,97 @@ func (lm *listModel) leaf(c *Ctx, fr *evalFrame, v ssa.Value) (interface{}, bool
 			return int64(len(lm.elems[l])), true
 		}
 	case "(*container/list.Element).Next":
-		if l, k, ok := lm.elemOf(fr, args[0]); ok {
+		if l, k, _, ok := lm.elemOf(fr, args[0]); ok {
+			if k < 0 {
+				return absPtr{"nil", true}, true
+			}
 			return lm.at(l, k+1), true
 		}
 	case "(*container/list.Element).Prev":
-		if l, k, ok := lm.elemOf(fr, args[0]); ok {
+		if l, k, _, ok := lm.elemOf(fr, args[0]); ok {
+			if k < 0 {
+				return absPtr{"nil", true}, true
+			}
 			return lm.at(l, k-1), true
 		}
 	}
 	return nil, false
 }
 
-// visit: PushBack and PushFront.
+// visit: PushBack, PushFront, PushBackList and Remove.
 func (lm *listModel) visit(fr *evalFrame, call *ssa.Call) {
 	callee := call.Common().StaticCallee()
-	if callee == nil || len(call.Common().Args) != 2 {
+	if callee == nil {
 		return
 	}
-	front := callee.String() == "(*container/list.List).PushFront"
-	if !front && callee.String() != "(*container/list.List).PushBack" {
+	// what a list or an element answers is read where the call stands (a later removal must not change it)
+	switch callee.String() {
+	case "(*container/list.List).Front", "(*container/list.List).Back", "(*container/list.List).Len", "(*container/list.Element).Next", "(*container/list.Element).Prev":
+		if fr.vals == nil {
+			fr.vals = map[ssa.Value]interface{}{}
+		}
+		delete(fr.vals, call)
+		if lm.c == nil {
+			return
+		}
+		if v, ok := lm.leaf(lm.c, fr, call); ok {
+			fr.vals[call] = v
+		}
 		return
 	}
-	l, ok := lm.listOf(fr, call.Common().Args[0])
-	if !ok {
-		lm.ev.fail = "a push onto a list the walk did not create"
+	if len(call.Common().Args) != 2 {
 		return
 	}
-	el, okE := lm.ev.eval(fr, unwrapIface(call.Common().Args[1]), 0)
-	if !okE {
-		el = nil
-	}
-	if front {
-		lm.elems[l] = append([]interface{}{el}, lm.elems[l]...)
-	} else {
-		lm.elems[l] = append(lm.elems[l], el)
-	}
-	if lm.onPush != nil {
-		lm.onPush(l, el, okE, front)
+	args := call.Common().Args
+	switch callee.String() {
+	case "(*container/list.List).PushBack", "(*container/list.List).PushFront":
+		front := callee.String() == "(*container/list.List).PushFront"
+		l, ok := lm.listOf(fr, args[0])
+		if !ok {
+			lm.ev.setFail("a push onto a list the walk does not know")
+			return
+		}
+		el, okE := lm.ev.eval(fr, unwrapIface(args[1]), 0)
+		if !okE {
+			el = nil
+		}
+		id := lm.newElem(el)
+		if front {
+			lm.elems[l] = append([]int{id}, lm.elems[l]...)
+		} else {
+			lm.elems[l] = append(lm.elems[l], id)
+		}
+		if lm.onPush != nil {
+			lm.onPush(l, el, okE, front)
+		}
+	case "(*container/list.List).PushBackList":
+		l, ok1 := lm.listOf(fr, args[0])
+		other, ok2 := lm.listOf(fr, args[1])
+		if !ok1 || !ok2 {
+			lm.ev.setFail("a list appended to a list the walk does not know")
+			return
+		}
+		for _, id := range append([]int{}, lm.elems[other]...) {
+			lm.elems[l] = append(lm.elems[l], lm.newElem(lm.vals[id])) // copies of the values, as the library's list makes
+		}
+	case "(*container/list.List).Remove":
+		l, ok := lm.listOf(fr, args[0])
+		el, k, _, okE := lm.elemOf(fr, args[1])
+		if !ok || !okE {
+			lm.ev.setFail("a removal from a list the walk does not know")
+			return
+		}
+		if el == l && k >= 0 {
+			lm.elems[l] = append(append([]int{}, lm.elems[l][:k]...), lm.elems[l][k+1:]...)
+		}
 	}
 }
 
 // render: the elements of a list as text ("?" for an element the walk could not evaluate).
 func (lm *listModel) render(list string) []string {
 	out := []string{}
-	for _, e := range lm.elems[list] {
-		if e == nil {
+	for _, id := range lm.elems[list] {
+		if e := lm.vals[id]; e == nil {
 			out = append(out, "?")
 		} else {
 			out = append(out, fmt.Sprint(e))
